@@ -7,6 +7,16 @@ Oracle: the three clauses of the property evaluated on the returned `FEMData` th
 Streams outside the property's quantifier (labelled, never reported through `fail`): selections that are
 empty / name nothing that exists / name a missing node / an out-of-range position (`outside:*`), and nodal
 variables whose own id order differs from the mesh (`misaligned:*`, classified as DESIGN section 5 / F9).
+
+Node ids (round 3, seeded C09-6): besides dense / sparse / ~1e6 / ~2e9 / prefix-like ids the meshes get "sparse but
+small" id sets with additive structure (`small_sparse_ids`: separately numbered parts whose offsets are about the
+node count, digit-shifted / multiplied ids, strides, max id just above the node count): what an index arithmetic on ids
+(packed keys, radix encodings, `id - offset` tables) gets wrong while `ids 1..n` and random sparse ids pass.  The
+operations whose result depends on the node ids only through facets (surface / facets / first order / remove useless)
+are in addition run on renumbered copies of every mesh (`renumber` stream, oracle only), and every input on which
+model and code disagree is handed to `intensify` (the same mesh under many node numberings and storage orders, the
+operation with freshly drawn selections, judged by the property oracle) so that a broken correspondence ends in a
+concrete failing input whenever the disagreement is a symptom of a property violation nearby.
 """
 from fractions import Fraction as F
 
@@ -29,14 +39,24 @@ THEOREMS = [
     'C09_values_attached_cut_nids', 'C09_values_attached_remove_useless', 'C09_values_attached_first_order',
     'C09_values_attached_surface', 'C09_values_attached_facets',
     'C09_cut_succeeds',
+    'C09_surface_once_only',
+    'C09_self_contained_surface_keep', 'C09_exact_selection_surface_keep', 'C09_values_attached_surface_keep',
+    'C09_self_contained_facets_all', 'C09_exact_selection_facets_all', 'C09_values_attached_facets_all',
+    'C09_radix_key_injective', 'C09_radix_key_counterexample',
 ]
 PARTIAL = []
 RULE = ('meshes: conforming geometric bricks (tet / hex / pyr / prism / mixed, optionally promoted to tet2) and '
         'combinatorial meshes over line/tri/quad/tet/tet2/pyr/prism/hex/hex2 with arbitrary connectivity; node and element '
-        'ids dense / sparse / ~1e6 / ~2e9 / prefix-like, storage order ascending / descending / shuffled, optional '
-        'unreferenced nodes; 1-3 nodal variables of rank 1-3 and 0-2 elemental variables (single `unknown` block or one block '
+        'ids dense / sparse / ~1e6 / ~2e9 / prefix-like, and (30 % of the meshes) SPARSE BUT SMALL node ids with additive '
+        'structure (2-3 separately numbered dense parts whose offsets are about the node count, ids that are multiples / '
+        'digit shifts of each other, strides, max id just above the node count); storage order ascending / descending / '
+        'shuffled / looks-sorted, optional unreferenced nodes; 1-3 nodal variables of rank 1-3 and 0-2 elemental variables (single `unknown` block or one block '
         'per element type) aligned with the mesh, values distinct dyadic rationals; per mesh every operation is run with '
         'singleton / all / random-subset selections in random order (element cuts also with ids that do not exist mixed in); '
+        'the ten operations include to_surface(remove_unnecessary_nodes=False) and to_facets(remove_duplicates=False); '
+        'stream `renumber` (oracle only): every mesh again under 2 (thorough: 4) other node numberings / storage orders for the '
+        'operations without a selection; stream `intensify` (only when model and code disagree): the disagreeing mesh under 40 '
+        'numberings with freshly drawn selections, judged by the property oracle; '
         'a case is (mesh, variables, operation, selection); non-trivial when the result differs from the input or the '
         'operation has to re-index (storage order not ascending)')
 ASSUMPTIONS = [
@@ -44,19 +64,133 @@ ASSUMPTIONS = [
     '(observed, counted as `shape:flattened`), which the property (values) does not forbid',
     'selections contain no duplicate ids (DESIGN C09); duplicates yield duplicated elements and are not generated',
     '`to_first_order` keeps the label tet2/hex2 on the corner connectivity: transcribed by the model, not judged by the oracle',
-    'surface / facet elements are new entities numbered 1..k: which facets they are is C10; C09 checks that they are '
-    'self-contained and that retained nodes keep ids, coordinates and values',
+    'surface / facet elements are new entities numbered 1..k; C09 checks, for every mesh, that as vertex sets they are exactly '
+    'the faces that belong to one element (to_surface, extract_surface; the harness counts the faces of all elements itself '
+    'from meshgen.FACES) / all faces once (to_facets) / all faces once per element (remove_duplicates=False), that every node '
+    'of such a face is retained and that retained nodes keep ids, coordinates and values; orientation and geometry of the '
+    'facets are C10',
+    'the order / numbering of the new surface elements is compared with the model (np.unique row order) by the correspondence '
+    'only: the property does not state it, the oracle does not judge it',
 ]
 TRUSTED = ['C09: harness/c09.py canonicalisation of FEMData into id-keyed maps']
 
-OPS = ['cut_eids', 'cut_type', 'cut_nids', 'extract_idx', 'remove_useless', 'first_order', 'surface', 'facets']
+OPS = ['cut_eids', 'cut_type', 'cut_nids', 'extract_idx', 'remove_useless', 'first_order', 'surface', 'facets',
+       'surface_keep', 'facets_all']
+# operations without a selection: their result depends on the node ids only (through facets / id sets)
+ID_OPS = ['surface', 'surface_keep', 'facets', 'facets_all', 'first_order', 'remove_useless']
+SURF = ('surface', 'surface_keep')
+FACET_OPS = ('surface', 'surface_keep', 'facets', 'facets_all')
 ERR = {ValueError: 'value', KeyError: 'key', IndexError: 'index', NotImplementedError: 'other'}
 T_IDX = {t: i for i, t in enumerate(G.ELEMENT_TYPES)}
 
 
 # ------------------------------------------------------------------ generators
 
+def compose(rnd, n, k):
+    """n as an ordered sum of k positive integers"""
+    cuts = sorted(rnd.sample(range(1, n), k - 1)) if k > 1 else []
+    return [b - a for a, b in zip([0] + cuts, cuts + [n])]
+
+
+SMALL_STYLES = ['parts', 'parts', 'shifted', 'shifted', 'stride', 'above']
+
+
+def small_sparse_ids(rnd, n, style=None):
+    """n distinct positive ids that are SPARSE BUT SMALL (max id > n by a small factor only) and have additive structure:
+    many pairs of ids differ by about the node count / are multiples or digit shifts of each other, so that arithmetic
+    combinations of ids (packed keys sum(id_k * base**k) with base ~ n, `id - offset` tables, hashes) collide although
+    every id is small.  Styles:
+      parts    2-3 dense ranges ("separately numbered parts", a sub-mesh that kept the ids of its parent) whose starts
+               differ by about the node count: 1.., B+1.., 2B+1.. with B in n-1 .. n+2
+      shifted  ids that are multiples / digit-shifted versions of each other: j, j*R, j*R + j', j + R  (R = B, 10, 16, 100)
+      stride   an arithmetic progression a, a+s, a+2s .. (s = 2, 3, B-1, B) filled up with the smallest free ids
+      above    1..n with one to three ids moved just above the node count (max id = n+1 .. n+3)"""
+    style = style or rnd.choice(SMALL_STYLES)
+    B = max(2, n + rnd.choice([-1, 0, 1, 1, 1, 2]))
+    if style == 'parts' and n >= 2:
+        sizes = compose(rnd, n, min(n, rnd.choice([2, 2, 3])))
+        ids, nxt = [], 1
+        for j, sz in enumerate(sizes):
+            start = max(nxt, j * B + rnd.choice([0, 1, 1, 1, 2]))
+            ids += list(range(start, start + sz))
+            nxt = start + sz + 1
+    elif style == 'shifted':
+        R = rnd.choice([B, B, 10, 16, 100])
+        pool = set()
+        while len(pool) < n:
+            j = rnd.randint(1, max(2, n // 2 + 1))
+            pool.add(rnd.choice([j, j, j * R, j * R + rnd.randint(0, j), j + R]))
+        ids = sorted(pool)
+    elif style == 'stride':
+        step = rnd.choice([2, 3, B, max(2, B - 1)])
+        a = rnd.randint(1, 3)
+        pool = {a + k * step for k in range(rnd.randint(1, n))}
+        j = 1
+        while len(pool) < n:
+            pool.add(j)
+            j += 1
+        ids = sorted(pool)
+    else:
+        style = 'above'
+        ids = list(range(1, n + 1))
+        for _ in range(rnd.randint(1, 3)):
+            new = n + rnd.randint(1, 3)
+            if new not in ids:
+                ids[rnd.randrange(n)] = new
+    assert len(set(ids)) == n and min(ids) >= 1, (style, ids)
+    return ids, 'small:' + style
+
+
+def renumber(rnd, m, vs=None, style=None, monotone=None, reorder=False):
+    """the same mesh (topology, coordinates, element ids) under another numbering of its nodes: (mesh, variables).
+    style: one of the `small_sparse_ids` styles, a `meshgen.random_ids` style, or None (drawn);  monotone: the k-th
+    smallest old id becomes the k-th smallest new id (storage order class kept), otherwise a random assignment;
+    reorder: the storage order of the nodes (and of the aligned nodal variables) is re-drawn too"""
+    old = [i for i, _ in m['nodes']]
+    if style is None:
+        style = rnd.choice(SMALL_STYLES + ['dense', 'sparse', 'prefix', 'huge'])
+    if style in ('parts', 'shifted', 'stride', 'above'):
+        new, label = small_sparse_ids(rnd, len(old), style)
+    else:
+        new, label = G.random_ids(rnd, len(old), style)
+    if monotone is None:
+        monotone = rnd.random() < .5
+    if monotone:
+        mp = dict(zip(sorted(old), sorted(new)))
+    else:
+        rnd.shuffle(new)
+        mp = dict(zip(old, new))
+    m2 = dict(m)
+    nodes = [(mp[i], p) for i, p in m['nodes']]
+    perm = list(range(len(nodes)))
+    if reorder:
+        keys, m2['order'] = G.order_ids(rnd, perm, {k: nodes[k][0] for k in perm})
+        perm = keys
+    m2['nodes'] = [nodes[k] for k in perm]
+    m2['blocks'] = {t: [(e, [mp[n] for n in c]) for e, c in b] for t, b in m['blocks'].items()}
+    m2['id_style'] = label
+    if vs is None:
+        return m2, None
+    vs2 = {'elemental': vs['elemental'], 'nodal': []}
+    for v in vs['nodal']:
+        w = dict(v)
+        if v['ids'] == old:             # aligned with the mesh: stays aligned
+            w['ids'] = [mp[old[k]] for k in perm]
+            w['rows'] = [v['rows'][k] for k in perm]
+        else:
+            w['ids'] = [mp[i] for i in v['ids']]
+        vs2['nodal'].append(w)
+    return m2, vs2
+
+
 def gen_mesh(rnd, quick=True):
+    m = gen_mesh0(rnd, quick)
+    if rnd.random() < .3:
+        m, _ = renumber(rnd, m, style=rnd.choice(SMALL_STYLES))
+    return m
+
+
+def gen_mesh0(rnd, quick=True):
     r = rnd.random()
     mc = 2 if quick else 3
     if r < .45:
@@ -222,7 +356,24 @@ def apply_real(fd, op, sel):
         return fd.to_surface()
     if op == 'facets':
         return fd.to_facets()
+    if op == 'surface_keep':
+        return fd.to_surface(remove_unnecessary_nodes=False)
+    if op == 'facets_all':
+        return fd.to_facets(remove_duplicates=False, return_dict_facets=True)[0]
     raise ValueError(op)
+
+
+def observe_extract_surface(fd):
+    """`extract_surface()` (public; what to_surface / the surface normals / the OBJ export are built on) as a list of
+    (facet as node IDS, positions) - it returns storage positions of the nodes, or {facet type: positions} when the
+    surface has triangles and quadrangles"""
+    idx, pos = fd.extract_surface()
+    ids = fd.nodes.ids
+    out = []
+    for ix, ps in (zip(idx.values(), pos.values()) if isinstance(idx, dict) else [(idx, pos)]):
+        for f, q in zip(ix, ps):
+            out.append(([int(ids[k]) for k in f], [row_of(x) for x in q]))
+    return out
 
 
 def row_of(x):
@@ -262,7 +413,12 @@ def run_real(m, vs, op, sel):
     try:
         fd = build(m, vs)
         r = G.quiet(apply_real, fd, op, sel)
-        return 'ok', observe(r)
+        out = observe(r)
+        if op == 'surface':     # the same object: to_surface() left it untouched (and extract_surface() memoised)
+            out['extract_surface'] = G.quiet(observe_extract_surface, fd)
+        if op == 'first_order':  # the public mask the reduction is built on, in the storage order of the INPUT nodes
+            out['first_order_filter'] = [bool(b) for b in fd.filter_first_order_nodes()]
+        return 'ok', out
     except tuple(ERR) as e:
         return 'err', next(v for k, v in ERR.items() if isinstance(e, k))
     except Exception as e:  # noqa
@@ -421,7 +577,7 @@ def oracle(m, vs, op, sel, out, check_vars=None):
                 bad.append(('values:nodal', f"nodal variable {v['name']} at node {i}: {r[0]} != {orig.get(i)}"))
                 break
     # --- values attached: elements (operations that retain elements)
-    if op not in ('surface', 'facets'):
+    if op not in FACET_OPS:
         for e, v in elems.items():
             if e not in oel:
                 bad.append(('values:element-invented', f'element {e} is not an element of the input'))
@@ -474,24 +630,56 @@ def oracle(m, vs, op, sel, out, check_vars=None):
                 bad.append(('selection:nodes', f'retained nodes {sorted(set(nodes) ^ referenced)[:6]} differ from the nodes of the first-order elements'))
         elif set(nodes) != set(onodes):
             bad.append(('selection:nodes', 'a first-order mesh lost or gained nodes'))
+        if 'first_order_filter' in out:
+            # filter_first_order_nodes(): True exactly at the vertices of the first-order elements (everywhere when the
+            # mesh has no second-order element: to_first_order() returns the mesh as it is)
+            second = any('2' in k for k in m['blocks'])
+            corners = {n for t, c in oel.values() for n in (c[:4] if t == 'tet2' else c[:8] if t == 'hex2' else c)}
+            want_mask = [(i in corners) if second else True for i, _ in m['nodes']]
+            if out['first_order_filter'] != want_mask:
+                wrong = [i for (i, _), a, b in zip(m['nodes'], out['first_order_filter'], want_mask) if a != b]
+                bad.append(('selection:first-order-filter', f'filter_first_order_nodes() is wrong at nodes {wrong[:6]}'
+                            if len(out['first_order_filter']) == len(want_mask) else 'filter_first_order_nodes() has the wrong length'))
     elif op == 'surface':
-        want_n = referenced
-    elif op == 'facets':
+        # every node of a face that belongs to exactly one element (computed here, independently of the result) and no other
+        want_n = {n for f, k in face_counts(m).items() if k == 1 for n in f}
+        if set(nodes) != referenced:
+            bad.append(('selection:nodes', f'retained nodes {sorted(set(nodes) ^ referenced)[:6]} differ from the nodes of the surface elements'))
+    elif op in ('facets', 'surface_keep', 'facets_all'):
         want_n = set(onodes)
     if want_e is not None and set(elems) != want_e:
         bad.append(('selection:elements', f'retained elements: {sorted(set(elems) - want_e)[:5]} not requested, {sorted(want_e - set(elems))[:5]} missing'))
     if want_n is not None and set(nodes) != want_n:
         bad.append(('selection:nodes', f'retained nodes: {sorted(set(nodes) - want_n)[:5]} unexpected, {sorted(want_n - set(nodes))[:5]} missing'))
-    if op in ('surface', 'facets'):
+    if op in FACET_OPS:
         # the new elements are exactly the (once-only, for the surface) faces of the input elements, as vertex sets
-        # (hand specification of the per-type face tables: meshgen.FACES; tri / quad elements are their own face)
+        # (hand specification of the per-type face tables: meshgen.FACES; tri / quad elements are their own face);
+        # with remove_duplicates=False every face once per element it belongs to
         count = face_counts(m)
-        want_f = {f for f, k in count.items() if k == 1} if op == 'surface' else set(count)
-        got_f = [frozenset(v[0][1]) for v in elems.values()]
-        if set(got_f) != want_f or len(got_f) != len(want_f):
-            bad.append(('selection:facets', f'{len(set(got_f) - want_f)} new elements are not '
-                        f'{"boundary " if op == "surface" else ""}faces of the input, {len(want_f - set(got_f))} faces are missing, '
-                        f'{len(got_f) - len(set(got_f))} are repeated'))
+        want_f = {f: 1 for f, k in count.items() if k == 1} if op in SURF else \
+            dict(count) if op == 'facets_all' else {f: 1 for f in count}
+        got_f = {}
+        for v in elems.values():
+            for _, c in v:
+                got_f[frozenset(c)] = got_f.get(frozenset(c), 0) + 1
+        if got_f != want_f:
+            missing = sorted(sorted(f) for f in want_f if f not in got_f)
+            bad.append(('selection:facets', f'{len(set(got_f) - set(want_f))} new elements are not '
+                        f'{"boundary " if op in SURF else ""}faces of the input, {len(missing)} faces are missing'
+                        f'{" (e.g. " + str(missing[0]) + ")" if missing else ""}, '
+                        f'{sum(1 for f, k in got_f.items() if k != want_f.get(f, k))} occur with the wrong multiplicity'))
+        if op == 'surface' and 'extract_surface' in out:
+            xs = out['extract_surface']
+            xf = {}
+            for ids, _ in xs:
+                xf[frozenset(ids)] = xf.get(frozenset(ids), 0) + 1
+            if xf != want_f:
+                bad.append(('selection:extract_surface', f'extract_surface(): {len(set(want_f) - set(xf))} boundary faces are missing, '
+                            f'{len(set(xf) - set(want_f))} facets are not boundary faces, {sum(1 for k in xf.values() if k != 1)} are repeated'))
+            for ids, ps in xs:
+                if any(i not in onodes or q != list(onodes[i]) for i, q in zip(ids, ps)):
+                    bad.append(('values:extract_surface-positions', f'extract_surface(): positions of facet {ids} are not the coordinates of its nodes'))
+                    break
         if sorted(elems) != list(range(1, len(elems) + 1)):
             bad.append(('selection:facet-ids', 'facet elements are not numbered 1..k'))
         if out['elemental']:
@@ -520,6 +708,73 @@ def order_class(m):
     return 'asc' if ids == sorted(ids) else 'desc' if ids == sorted(ids, reverse=True) else 'shuf'
 
 
+def eval_case(ctx, m, vs, op, style, sel, stream, pending=None):
+    """one (mesh, variables, operation, selection): real femio, histograms, property oracle; queued for the model when
+    `pending` is given.  Returns the number of oracle failures reported."""
+    misaligned = stream == 'misaligned'
+    impl = run_real(m, vs, op, sel)
+    case = Lazy(m, vs, op, sel)
+    outside = style.startswith('outside:')
+    label = f'{op}:{style}'
+    n_fail = 0
+    if misaligned:
+        ctx.count(f'misaligned:{op}:' + ('ok' if impl[0] == 'ok' else 'raised:' + impl[1]))
+    elif outside:
+        ctx.count(f'{label}:' + ('ok' if impl[0] == 'ok' else 'raised:' + impl[1]))
+    elif stream == 'main':
+        ctx.count('op:' + op)
+        ctx.count('selection:' + style)
+        ctx.count('outcome:' + ('ok' if impl[0] == 'ok' else 'raised:' + impl[1]))
+    else:
+        ctx.count(f'{stream}:{op}:' + ('ok' if impl[0] == 'ok' else 'raised:' + impl[1]))
+    nontrivial = impl[0] == 'ok' and (
+        set(impl[1]['nodes']) != {i for i, _ in m['nodes']} or op in FACET_OPS or op == 'first_order'
+        or set(impl[1]['elems']) != set(flat_eids(m)) or order_class(m) != 'asc')
+    ctx.case((stream, G.enc_mesh(m), repr(vs), op, repr(sel)),
+             sample={'stream': stream, 'mesh': G.describe(m), 'op': op, 'selection_style': style,
+                     'selection': sel if not isinstance(sel, list) else sel[:8],
+                     'nodal': [(v['name'], v['shape']) for v in vs['nodal']],
+                     'elemental': [(v['name'], v['shape'], list(v['blocks'])) for v in vs['elemental']],
+                     'outcome': impl[0] if impl[0] == 'ok' else impl[1]},
+             nontrivial=nontrivial and not outside)
+    tag = '' if stream in ('main', 'misaligned') else f' [{stream}]'
+    # ---- property oracle
+    if impl[0] == 'ok':
+        for v in vs['nodal']:
+            if len(v['shape']) == 2 and len(impl[1]['shapes'].get(v['name'], [0, 0])) == 1:
+                ctx.count('shape:flattened')
+        if misaligned:
+            aligned = {v['name'] for v in vs['nodal'] if not v.get('misaligned')}
+            for sig, text in oracle(m, vs, op, sel, impl[1], check_vars=aligned):
+                ctx.fail(f'{op}:{sig}', f'{op} ({style}): {text}', case.json(), text)
+                n_fail += 1
+            mis = [s for s, _ in oracle(m, {'nodal': [v for v in vs['nodal'] if v.get('misaligned')], 'elemental': []},
+                                        op, sel, impl[1]) if s.startswith('values:nodal')]
+            ctx.count(f'misaligned:{op}:' + ('values-rebound-to-other-ids' if mis else 'values-kept'))
+        elif not outside:
+            for sig, text in oracle(m, vs, op, sel, impl[1]):
+                ctx.fail(f'{op}:{sig}', f'{op} ({style}){tag}: {text}', case.json(), text)
+                n_fail += 1
+    elif not outside and not misaligned:
+        # inside the quantifier the operation must not fail, except where the mesh has no facets / unsupported order
+        expected = (op in FACET_OPS and impl[1] == 'other') or \
+                   (op == 'first_order' and impl[1] == 'value' and
+                    any('2' in t and t not in ('tet2', 'hex2') for t in m['blocks']))
+        if not expected and op in SURF and impl[1] == 'value' and 1 not in face_counts(m).values():
+            # every face is shared (duplicated elements): there is no surface to return
+            ctx.count('outside:empty-surface:raised:value')
+        elif expected:
+            ctx.count(f'unsupported-type:{op}')
+        else:
+            ctx.fail(f'{op}:raises', f'{op} ({style}){tag} raised {impl[1]} on a well-formed mesh and selection', case.json(), impl[1])
+            n_fail += 1
+    if n_fail:
+        ctx.count(f'oracle-failures-by-stream:{stream}:{op}', n_fail)
+    if pending is not None:
+        pending.append((case, impl, model_line(m, vs, op, sel), vs, label, stream))
+    return n_fail
+
+
 def one_mesh(ctx, rnd, pending, misaligned=False):
     m = gen_mesh(rnd, ctx.quick)
     vs = gen_vars(rnd, m, misaligned=misaligned)
@@ -528,6 +783,8 @@ def one_mesh(ctx, rnd, pending, misaligned=False):
         ctx.count('mesh:' + ('mixed' if len(m['blocks']) > 1 else 'uniform'))
         ctx.count('mesh-order:' + order_class(m))
         ctx.count('mesh-ids:' + str(m.get('id_style')))
+        ctx.count('mesh-max-id:' + ('<=n' if max(i for i, _ in m['nodes']) <= len(m['nodes']) else
+                                    '<=4n' if max(i for i, _ in m['nodes']) <= 4 * len(m['nodes']) else '>4n'))
         ctx.count('mesh-unreferenced:' + ('yes' if m.get('n_unref') else 'no'))
         for t in m['blocks']:
             ctx.count('etype:' + t)
@@ -539,56 +796,38 @@ def one_mesh(ctx, rnd, pending, misaligned=False):
         for style, sel in selections(rnd, m, op):
             if misaligned and style.startswith('outside:'):
                 continue
-            impl = run_real(m, vs, op, sel)
-            case = Lazy(m, vs, op, sel)
-            outside = style.startswith('outside:')
-            label = f'{op}:{style}'
-            if misaligned:
-                ctx.count(f'misaligned:{op}:' + ('ok' if impl[0] == 'ok' else 'raised:' + impl[1]))
-            elif outside:
-                ctx.count(f'{label}:' + ('ok' if impl[0] == 'ok' else 'raised:' + impl[1]))
-            else:
-                ctx.count('op:' + op)
-                ctx.count('selection:' + style)
-                ctx.count('outcome:' + ('ok' if impl[0] == 'ok' else 'raised:' + impl[1]))
-            nontrivial = impl[0] == 'ok' and (
-                set(impl[1]['nodes']) != {i for i, _ in m['nodes']} or op in ('surface', 'facets', 'first_order')
-                or set(impl[1]['elems']) != set(flat_eids(m)) or order_class(m) != 'asc')
-            ctx.case((stream, G.enc_mesh(m), repr(vs), op, repr(sel)),
-                     sample={'stream': stream, 'mesh': G.describe(m), 'op': op, 'selection_style': style,
-                             'selection': sel if not isinstance(sel, list) else sel[:8],
-                             'nodal': [(v['name'], v['shape']) for v in vs['nodal']],
-                             'elemental': [(v['name'], v['shape'], list(v['blocks'])) for v in vs['elemental']],
-                             'outcome': impl[0] if impl[0] == 'ok' else impl[1]},
-                     nontrivial=nontrivial and not outside)
-            # ---- property oracle
-            if impl[0] == 'ok':
-                for v in vs['nodal']:
-                    if len(v['shape']) == 2 and len(impl[1]['shapes'].get(v['name'], [0, 0])) == 1:
-                        ctx.count('shape:flattened')
-                if misaligned:
-                    aligned = {v['name'] for v in vs['nodal'] if not v.get('misaligned')}
-                    for sig, text in oracle(m, vs, op, sel, impl[1], check_vars=aligned):
-                        ctx.fail(f'{op}:{sig}', f'{op} ({style}): {text}', case.json(), text)
-                    mis = [s for s, _ in oracle(m, {'nodal': [v for v in vs['nodal'] if v.get('misaligned')], 'elemental': []},
-                                                op, sel, impl[1]) if s.startswith('values:nodal')]
-                    ctx.count(f'misaligned:{op}:' + ('values-rebound-to-other-ids' if mis else 'values-kept'))
-                elif not outside:
-                    for sig, text in oracle(m, vs, op, sel, impl[1]):
-                        ctx.fail(f'{op}:{sig}', f'{op} ({style}): {text}', case.json(), text)
-            elif not outside and not misaligned:
-                # inside the quantifier the operation must not fail, except where the mesh has no facets / unsupported order
-                expected = (op in ('surface', 'facets') and impl[1] == 'other') or \
-                           (op == 'first_order' and impl[1] == 'value' and
-                            any('2' in t and t not in ('tet2', 'hex2') for t in m['blocks']))
-                if not expected and op == 'surface' and impl[1] == 'value' and 1 not in face_counts(m).values():
-                    # every face is shared (duplicated elements): there is no surface to return
-                    ctx.count('outside:empty-surface:raised:value')
-                elif expected:
-                    ctx.count(f'unsupported-type:{op}')
-                else:
-                    ctx.fail(f'{op}:raises', f'{op} ({style}) raised {impl[1]} on a well-formed mesh and selection', case.json(), impl[1])
-            pending.append((case, impl, model_line(m, vs, op, sel), vs, label, stream))
+            eval_case(ctx, m, vs, op, style, sel, stream, pending)
+    if misaligned:
+        return
+    # ---- renumber stream (inside the quantifier, oracle only): the same mesh and variables under other node numberings.
+    # The operations without a selection see the node ids only through facets / id sets, so a numbering is the whole input.
+    second = any('2' in t for t in m['blocks'])
+    for _ in range(ctx.n(2, 4)):
+        m2, vs2 = renumber(rnd, m, vs, reorder=rnd.random() < .3)
+        ctx.count('renumber:ids:' + str(m2['id_style']))
+        for op in ID_OPS:
+            if (op == 'first_order' and not second) or (op == 'remove_useless' and not m.get('n_unref')) or \
+                    (op in ('surface_keep', 'facets_all') and rnd.random() < .75):
+                continue
+            eval_case(ctx, m2, vs2, op, '-', None, 'renumber')
+
+
+def intensify(ctx, rnd, m, vs, op, label, budget=40):
+    """model and code disagree on (m, vs, op, .): hand the input to the property oracle in earnest - the same mesh under
+    `budget` other node numberings / storage orders, the operation with freshly drawn selections.  A disagreement that is
+    not itself a violation (an order, a numbering of new entities) is very often the visible part of a change that
+    violates the property on a neighbouring input; this is what turns it into a concrete replay."""
+    found = 0
+    for k in range(budget):
+        m2, vs2 = (m, vs) if k == 0 else renumber(rnd, m, vs, reorder=rnd.random() < .5)
+        for style, sel in selections(rnd, m2, op):
+            if style.startswith('outside:'):
+                continue
+            found += eval_case(ctx, m2, vs2, op, style, sel, 'intensify')
+        if found >= 3:
+            break
+    ctx.count(f'intensify:{op}:' + ('failing-input-found' if found else 'none-found'))
+    return found
 
 
 def flush(ctx, pending):
@@ -596,6 +835,7 @@ def flush(ctx, pending):
         pending.clear()
         return
     replies = ctx.driver.ask_many([p[2] for p in pending])
+    hot = []
     for (case, impl, _, vs, label, stream), rep in zip(pending, replies):
         if rep.startswith('err bad-op'):
             raise RuntimeError('driver rejected a c09 request: ' + label)
@@ -607,7 +847,17 @@ def flush(ctx, pending):
             ctx.disagree(f'{label}: {d}' + ('' if stream == 'main' else f' [{stream}]'), case.json(),
                          impl[1] if impl[0] == 'err' else {k: impl[1][k] for k in ('node_order',)},
                          model[1] if model[0] == 'err' else {k: model[1][k] for k in ('node_order',)})
+        if diffs and stream == 'main' and not label.split(':', 1)[1].startswith('outside:'):
+            hot.append(case)
     pending.clear()
+    # the disagreeing inputs go to the oracle: at most 4 per operation and 12 per run, cheapest (smallest) meshes first
+    hot.sort(key=lambda c: len(c.a[0]['nodes']))
+    for case in hot:
+        m, vs, op, _ = case.a
+        if ctx.extra.setdefault('c09_intensified', {}).get(op, 0) >= 4 or sum(ctx.extra['c09_intensified'].values()) >= 12:
+            continue
+        ctx.extra['c09_intensified'][op] = ctx.extra['c09_intensified'].get(op, 0) + 1
+        intensify(ctx, ctx.rng, m, vs, op, op)
 
 
 def run(ctx):
